@@ -44,6 +44,7 @@ def leaves():
         ('buck4', form('buck4', 1388.773, 0.3623, 175.0, 1.2, 2.1, 2.6), 2),
         ('py_plain', {'py': 'py_plain'}, 0), ('py_deriv', {'py': 'py_deriv'}, 1), ('py_both', {'py': 'py_both'}, 2),
         ('table', {'table': 'tf'}, 2),
+        ('poly_root', form('polynomial', -0.7, 1.0), 2),      # exactly 0.0 at the lattice point r = 0.7, slope 1
     ]
     return L
 
@@ -113,6 +114,13 @@ def cases(tier):
             out.append(dict(route='api', d=D(t)))
             out.append(dict(route='api', d=D(mod('sum', t, Ld['morse']))))
             out.append(dict(route='api', d=D(mod('product', Ld['const_int'], t))))
+    # shared sub-expressions: x = c1(a, b) is evaluated, then used as an operand of y = c2(x, c) / c2(c, x); x must be unchanged and
+    # y must equal the same tree built from fresh pieces
+    sh = [x for x in L if x[0] in ('buck', 'morse', 'polynomial', 'py_plain', 'py_deriv', 'const_int', 'poly_root')]
+    for c1, c2 in itertools.product(('sum', 'product', 'pow'), repeat=2):
+        for (_na, a, _x), (_nb, b, _y), (_nc, c, _z) in itertools.product(sh, sh, sh):
+            for side in (0, 1):
+                out.append(dict(route='shared', c1=c1, c2=c2, a=a, b=b, c=c, side=side))
     # multi-range potentials with a non-zero default value (a plateau below the first range: its derivatives are zero)
     for comb in ('none', 'sum', 'product'):
         for marker in ('>', '>='):
@@ -308,7 +316,52 @@ def run_mr_default(case):
     return dict(outcome='ok:mr_default' if not viol else 'violation', nontrivial=True, evals=evals, violations=viol)
 
 
+def observe(f, rs):
+    out = []
+    for r in rs:
+        for which in ('__call__', 'deriv', 'deriv2'):
+            if which != '__call__' and not hasattr(f, which):
+                out.append((r, which, 'absent'))
+                continue
+            try:
+                v = f(r) if which == '__call__' else getattr(f, which)(r)
+                out.append((r, which, repr(v)))
+            except (ZeroDivisionError, ValueError, OverflowError, TypeError) as e:
+                out.append((r, which, type(e).__name__))
+    return out
+
+
+def run_shared(case):
+    import atsim.potentials as ap
+    comb = {'sum': ap.plus, 'product': ap.product, 'pow': ap.pow}
+    rs = (0.7, 1.3, 2.9)
+    x = comb[case['c1']](R.api_item(case['a']), R.api_item(case['b']))
+    before = observe(x, rs)
+    c = R.api_item(case['c'])
+    y = comb[case['c2']](x, c) if case['side'] == 0 else comb[case['c2']](c, x)
+    oy = observe(y, rs)
+    after = observe(x, rs)
+    x2 = comb[case['c1']](R.api_item(case['a']), R.api_item(case['b']))
+    c2 = R.api_item(case['c'])
+    y2 = comb[case['c2']](x2, c2) if case['side'] == 0 else comb[case['c2']](c2, x2)
+    viol = []
+    what = '%s(%s, %s)' % (case['c1'], X.render_item(case['a']) if 'form' in case['a'] else case['a'], X.render_item(case['b']) if 'form' in case['b'] else case['b'])
+    for (r, w, v0), (_r, _w, v1) in zip(before, after):
+        if v0 != v1:
+            viol.append(dict(sig='operand-changed-by-composition:%s' % w, msg='x = %s: x.%s(%r) was %s, after building %s with x as operand %d it is %s'
+                             % (what, w, r, v0, case['c2'], case['side'], v1), detail={}))
+            break
+    for (r, w, v0), (_r, _w, v1) in zip(oy, observe(y2, rs)):
+        if v0 != v1 and not viol:
+            viol.append(dict(sig='composition-of-used-operand-differs:%s' % w, msg='y = %s(x, c) with x = %s already evaluated: y.%s(%r) = %s, the same tree from fresh pieces gives %s'
+                             % (case['c2'], what, w, r, v0, v1), detail={}))
+            break
+    return dict(outcome='ok:shared' if not viol else 'violation', nontrivial=True, evals=len(before) * 4, violations=viol)
+
+
 def run_case(case):
+    if case['route'] == 'shared':
+        return run_shared(case)
     if case['route'] == 'leaf':
         return run_leaf(case)
     if case['route'] == 'mr_default':
